@@ -307,7 +307,19 @@ func runC16(c *Ctx) {
 									fail("search-case|"+p.Path+"|"+op, fmt.Sprintf("Search(%s %s %q) on stored %q (given as %q) found %d objects, expected match=%v", p.Path, op, probe, stored, s1, s.Len(), want))
 									return
 								}
-								c.Count("evaluations", 1)
+								// the same condition as a refinement: And on a search matching the
+								// object, Or on a search matching nothing
+								all := db.Search(&CaseRec{}, "Raw", "!=", "\x00never")
+								none := db.Search(&CaseRec{}, "Raw", "=", "\x00never")
+								if sa := all.And(p.Path, op, probe); sa.Err() != nil || (sa.Len() == 1) != want {
+									fail("search-case-and|"+p.Path+"|"+op, fmt.Sprintf("Search(all).And(%s %s %q) on stored %q found %d objects (err %v), expected match=%v", p.Path, op, probe, stored, sa.Len(), sa.Err(), want))
+									return
+								}
+								if so := none.Or(p.Path, op, probe); so.Err() != nil || (so.Len() == 1) != want {
+									fail("search-case-or|"+p.Path+"|"+op, fmt.Sprintf("Search(none).Or(%s %s %q) on stored %q found %d objects (err %v), expected match=%v", p.Path, op, probe, stored, so.Len(), so.Err(), want))
+									return
+								}
+								c.Count("evaluations", 3)
 							}
 						}
 					}
